@@ -35,9 +35,10 @@ def parse_off_data(data):
     # remove empty lines from data
     data = deque([x for x in data if x])
 
-    header = data.popleft()[0]
-    if (header != "OFF"): # file always starts with OFF
+    header = data.popleft()
+    if (header[0] != "OFF"): # file always starts with OFF
         raise Exception("Import OFF file : OFF header missing.")
+    if len(header)>1: data.appendleft(header[1:]) # the counts may follow the keyword on the same line
 
     nv,nf,ne = (int(u) for u in data.popleft())
 
